@@ -22,6 +22,8 @@ from vlib.common import Run, Finding, BrokenTie, coq_eval_many, parse_eval, list
 K_RQ = 'F03-slot-overwritten-while-task-in-flight'     # two tasks of one slot kind live at once; one handle lost
 K_TR = 'F03-done-callback-clears-newer-task'           # a single live task that its slot does not hold
 K_RACE = 'F15-race-connect-children-survive-cancel'
+K_LOCK = 'F29-cycle-during-stop-call-starts-surviving-task'
+K_RMFIN = 'F30-remove-of-finished-transfer-leaves-task-running'
 
 CODE = {'QUEUED': 0, 'INITIALIZING': 1, 'UPLOADING': 2, 'DOWNLOADING': 2, 'ABORTED': 3, 'PAUSED': 3,
         'COMPLETE': 4, 'FAILED': 4, 'INCOMPLETE': 0, 'VIRGIN': 6}   # INCOMPLETE behaves like QUEUED for every modelled event
@@ -50,6 +52,7 @@ class Driver:
         self.markers = []       # observation windows
         self.viol = []          # (key, text)
         self.flight = {}        # transfer index -> worst (nRQ, nTR) seen, untracked seen
+        self.nomodel = False
         # really shared files, so that uploads are created the way a peer creates them (PeerTransferQueue)
         import os
         sm = tw.w.client.shares
@@ -339,8 +342,12 @@ class Driver:
                 if u == f'u{op[1]}' and not ep.remote_closed:
                     ep.feed_eof()
             tw.settle(100)
-        elif kind in ('A', 'P', 'X', 'RQ'):
+        elif kind in ('A', 'P', 'X', 'RQ', 'AI'):
             k = op[1]
+            inter = None
+            if kind == 'AI':        # ['AI', k, 'A'|'P', offset]: a server message arrives `offset` loop iterations into the call
+                kind, inter = op[2], op[3]
+                self.nomodel = True  # the model's stop calls are atomic: monitor only
             if k >= len(self.ts):
                 return
             t = self.ts[k]
@@ -366,14 +373,26 @@ class Driver:
                 api = {'A': tw.tm.abort, 'P': tw.tm.pause, 'X': tw.tm.remove}[kind]
                 at_return = {}
 
+                n_before = len(self.entries.get(id(t), []))
+
                 async def stopper():
                     await api(t)
                     # the very instant the call returned (no loop iteration in between)
                     at_return['live'] = self.live_entries(t)
-                ok, exc = tw.call(stopper())
+                if inter is None:
+                    ok, exc = tw.call(stopper())
+                else:
+                    from aioslsk.protocol.messages import GetUserStatus
+                    task = tw.w.loop.create_task(stopper())
+                    tw.w.loop.run_ready(inter)
+                    tw.w.server_send(GetUserStatus.Response('someone', 2, False))
+                    tw.settle(100)
+                    ok, exc = (task.done() and task.exception() is None), (None if not task.done() or task.exception() is None else type(task.exception()).__name__)
+                    if not task.done():
+                        task.cancel()
                 if ok and (stoppable or kind == 'X'):
                     ue[k] = [{'A': 'Abort', 'P': 'Pause', 'X': 'Remove'}[kind]]
-                    if stoppable:
+                    if stoppable or kind == 'X':
                         others_active = any(x is not t and x.username == t.username and x.state.VALUE.name in
                                             ('QUEUED', 'INITIALIZING', 'UPLOADING', 'DOWNLOADING', 'INCOMPLETE') for x in self.ts)
                         self.markers.append({
@@ -383,6 +402,8 @@ class Driver:
                             'orphans_at_call': [(e.kind, e.k) for e in live_before if e not in in_slots],
                             'race_children': [x.get_name() for x in asyncio.all_tasks(tw.w.loop) if not x.done()
                                               and x.get_name().startswith((f'direct-connect-{t.username}-', f'indirect-connect-{t.username}-'))],
+                            'created_during_call': [(e.kind, e.k) for e in at_return.get('live', []) if e.k >= n_before],
+                            'finished': not stoppable,
                             'alone': not others_active, 'end': None})
                 elif not ok and exc not in ('InvalidStateTransition',):
                     self.viol.append(('stop-call-raised', f'{kind} on transfer {k} raised {exc}'))
@@ -452,6 +473,14 @@ class Driver:
                 what.append(f'frames {frames}')
             if changed:
                 what.append(f'fields changed {changed}')
+            if m['created_during_call'] and set(m['live_at_return']) == set(m['created_during_call']):
+                out.append((K_LOCK, f"{m['op']} of transfer {m['k']}: a management cycle that ran while the call was awaiting the cancelled "
+                                    f"task created {m['created_during_call']}, alive after the call returned" + ('; ' + '; '.join(what) if what else '')))
+                continue
+            if m['finished'] and m['slot_survivors'] and set(m['live_at_return']) == set(m['slot_survivors']):
+                out.append((K_RMFIN, f"remove() of the finished transfer {m['k']} returned with {m['slot_survivors']} still running"
+                                     + ('; ' + '; '.join(what) if what else '')))
+                continue
             if m['slot_survivors']:
                 out.append(('slot-task-survives-stop', f"{m['op']} of transfer {m['k']} returned while the task(s) {m['slot_survivors']} "
                                                        f'held by its slots at the call are still running'))
@@ -490,7 +519,7 @@ def execute(mode, ops, window=True):
             d.do(op)
         if window:
             d.window()
-        return d.rows, d.evaluate(), [t.is_upload() for t in d.ts]
+        return ({} if d.nomodel else d.rows), d.evaluate(), [t.is_upload() for t in d.ts]
     finally:
         d.close()
 
@@ -498,6 +527,8 @@ def execute(mode, ops, window=True):
 # the two stored witnesses (also what known_findings replays)
 W_RQ = {'mode': 'fallback', 'ops': [['Addr', 0, 'hold'], ['D', 0], ['T', 0.3], ['Poke'], ['T', 0.3], ['A', 0]]}
 W_TR = {'mode': 'fallback', 'ops': [['Mode', 0, 'slow'], ['U', 0], ['T', 0.3], ['T', 0.3], ['Rel', 0, False], ['T', 0.3], ['A', 0]]}
+W_LOCK = {'mode': 'fallback', 'ops': [['Addr', 0, 'hold'], ['D', 0], ['T', 0.5], ['AI', 0, 'A', 1]]}
+W_RMFIN = {'mode': 'fallback', 'ops': [['Mode', 0, 'slow'], ['D', 0], ['T', 0.3], ['PReq', 0], ['FConn', 0, 'data'], ['X', 0]]}
 W_RACE = {'mode': 'race', 'ops': [['Addr', 0, 'hold'], ['D', 0], ['T', 0.3], ['A', 0]]}
 
 
@@ -586,6 +617,8 @@ def gen_ops(rng):
             ops.append(['Rel', rng.randrange(0, 2), rng.random() < 0.6])
         elif r < 0.78:
             ops.append(['Reply', rng.randrange(0, max(1, nt))])
+        elif r < 0.82:
+            ops.append(['AI', rng.randrange(0, max(1, nt)), rng.choice(['A', 'P']), rng.randrange(0, 7)])
         elif r < 0.92:
             ops.append([rng.choice(['A', 'A', 'P', 'X']), rng.randrange(0, max(1, nt))])
         else:
@@ -626,7 +659,7 @@ def coq_cases(cases):
 
 def model_agrees(cases):
     import re
-    shard = 40
+    shard = 100
     texts = [coq_cases(cases[i:i + shard]) for i in range(0, len(cases), shard)]
     outs = coq_eval_many('c06', texts, timeout=900)
     bad = []
@@ -645,6 +678,11 @@ WHAT = {
           '(PeerTransferQueue sent, remotely_queued set, or the transfer re-queued) after the call returned',
     K_TR: 'a cycle that runs between the end of a task and its done-callback stores the new task in the slot, the callback then clears it '
           '(typical: failed upload attempt re-queues the transfer): the running negotiation is unreachable for abort/pause/remove',
+    K_LOCK: 'abort/pause hold the state lock while they await the cancelled task; the transfer is still QUEUED and, once that task is done, '
+            'its slot is free: a management cycle in that window (any server message that requests one) starts a new queue-remotely / '
+            'initialize task which the call never cancels; it goes on after the call returned',
+    K_RMFIN: 'remove() swallows the refused abort of a COMPLETE/FAILED/ABORTED/PAUSED transfer and cancels nothing: a remote-queue attempt '
+             'still connecting (the download finished through a transfer the peer initiated) keeps running and sends PeerTransferQueue for the removed file',
     K_RACE: 'connect_mode RACE: cancelling the task awaiting create_peer_connection leaves its direct-/indirect-connect child tasks '
             'running; a connection to the peer is still opened after abort returned',
 }
@@ -666,7 +704,7 @@ def run(run: Run):
     run.prove(['tr_prio'])
 
     # stored witnesses first (deterministic KNOWN-FINDING lines)
-    stored = {K_RQ: W_RQ, K_TR: W_TR, K_RACE: W_RACE}
+    stored = {K_RQ: W_RQ, K_TR: W_TR, K_RACE: W_RACE, K_LOCK: W_LOCK, K_RMFIN: W_RMFIN}
     for key, wit, fixed in run.known_witnesses():
         if wit:
             stored[key] = wit
@@ -683,7 +721,7 @@ def run(run: Run):
         for k, text in viol:
             run.add_finding(Finding(k, WHAT.get(k, text), wit, observed=text, expected='no activity after the call returned; one task per slot'))
 
-    n = 110 if run.tier == "quick" else 450
+    n = 90 if run.tier == "quick" else 450
     seen_new = set()
     for i in range(n):
         ops = gen_ops(run.rng)
@@ -693,7 +731,7 @@ def run(run: Run):
         except Exception as e:
             run.add_broken('correspondence:C06 scenario crashed', f'{type(e).__name__}: {e} mode={mode} ops={ops}')
             break
-        stops_live = any(o[0] in ('A', 'P', 'X') for o in ops)
+        stops_live = any(o[0] in ('A', 'P', 'X', 'AI') for o in ops)
         run.case({'mode': mode, 'ops': ops}, nontrivial=stops_live and any(s[2] + s[3] > 0 for r in rows.values() for _, s in r),
                  kind=mode)
         run.count('ops', len(ops))
@@ -701,7 +739,7 @@ def run(run: Run):
         for ti, r in rows.items():
             cases.append((ups[ti], r, {'mode': mode, 'ops': ops}))
         for k, text in viol:
-            if k in (K_RQ, K_TR, K_RACE):
+            if k in (K_RQ, K_TR, K_RACE, K_LOCK, K_RMFIN):
                 run.add_finding(Finding(k, WHAT[k], {'mode': mode, 'ops': ops}, observed=text))
             elif k not in seen_new:
                 seen_new.add(k)
